@@ -1,5 +1,5 @@
 """Generic nets, instantiated per property on the functions that property
-depends on (rule ids Cxx.G1 .. Cxx.G6).
+depends on (rule ids Cxx.G1 .. Cxx.G7).
 
 The rules of cXX.py decide clauses somebody wrote down for one function.  The
 adversarial rounds (DESIGN 8) showed a second population of breaking changes
@@ -24,6 +24,7 @@ consumes.
   G4  row integrity of tables     (rules/_rowtear.py)
   G5  memo tables in loops        -- the key determines the stored value
   G6  element decides for all     -- fixed element of an iterated collection in a guard
+  G7  array as truth value        -- attribute bound to an array by every definition, bare in a test
 """
 import ast
 import json
@@ -647,6 +648,7 @@ def run(ctx, prop):
     g4(ctx, prop, rel, prop + '.G4')
     g5(ctx, prop, rel, prop + '.G5')
     g6(ctx, prop, rel, prop + '.G6')
+    g7(ctx, prop, rel, prop + '.G7')
     ctx.decided.append(
         'G1-G4 generic nets over the functions this property depends on '
         '(%d, closure of %d entry functions under resolved callees): no '
@@ -655,7 +657,8 @@ def run(ctx, prop):
         'table; no value left over from a finished loop read in place of the '
         'collection; no column-wise sort of a record table; every memo table '
         'filled inside a loop is keyed by everything its values depend on; '
-        'no decision about a collection is taken from one fixed element'
+        'no decision about a collection is taken from one fixed element; no '
+        'array-valued attribute is used as a truth value'
         % (len(rel), len(seeds)))
 
 
@@ -1065,3 +1068,120 @@ def g6(ctx, prop, rel, rule):
     ctx.ok(rule, 'dassh', None, '%d functions scanned; %d frozen exceptions; '
            'synthetic positive/negative examples decided'
            % (n, len(ELEM_OK)))
+
+
+# ---------------------------------------------------------------------------
+# G7: an array-valued attribute is not a truth value
+
+TRUTH_POSITIVE = """
+import numpy as np
+class R:
+    def __init__(self, n, f):
+        self.flow = np.ones(n) * f
+        self.total = 0.0
+    def step(self):
+        if self.flow > 0:
+            return 1
+        return 0
+    def fine(self):
+        if np.sum(self.flow) > 0 and self.total > 0 and self.flow is not None:
+            return 1
+        return 2 if self.flow[0] > 0 else 0
+"""
+_ARRAY_MAKERS = ('np.ones', 'np.zeros', 'np.array', 'np.arange',
+                 'np.linspace', 'np.empty', 'np.full', 'np.ones_like',
+                 'np.zeros_like')
+
+
+def _array_valued(v):
+    if isinstance(v, ast.Call) and (call_name(v) or '') in _ARRAY_MAKERS:
+        if (call_name(v) or '') == 'np.array' and v.args and isinstance(
+                v.args[0], ast.Constant):
+            return False          # 0-d array of one number
+        return True
+    if isinstance(v, ast.BinOp):
+        return _array_valued(v.left) or _array_valued(v.right)
+    return False
+
+
+def array_truth_tests(repo, ci):
+    """[(method, test node, attribute)]: `self.a` is bound to an array
+    expression by EVERY definition in the class hierarchy, and appears as a
+    bare operand of a truth test (if / while / conditional expression /
+    assert), not reduced (np.sum / any / all / len) and not subscripted: the
+    test raises ValueError as soon as the array has more than one element."""
+    defs = {}
+    for c in repo.mro(ci):
+        for m in c.methods.values():
+            for n in ast.walk(m.node):
+                if isinstance(n, ast.Assign):
+                    for t in n.targets:
+                        if isinstance(t, ast.Attribute) and isinstance(
+                                t.value, ast.Name) and t.value.id == 'self':
+                            defs.setdefault(t.attr, []).append(n.value)
+    arr = {a for a, vs in defs.items()
+           if vs and all(_array_valued(v) for v in vs)}
+    out = []
+    if not arr:
+        return out, 0
+    n_tests = 0
+    for m in ci.methods.values():
+        for n in ast.walk(m.node):
+            if not isinstance(n, (ast.If, ast.While, ast.IfExp, ast.Assert)):
+                continue
+            parts = [n.test]
+            while parts:
+                e = parts.pop()
+                if isinstance(e, ast.BoolOp):
+                    parts += e.values
+                    continue
+                if isinstance(e, ast.UnaryOp) and isinstance(e.op, ast.Not):
+                    parts.append(e.operand)
+                    continue
+                n_tests += 1
+                if isinstance(e, ast.Compare) and all(
+                        isinstance(op, (ast.Is, ast.IsNot, ast.In, ast.NotIn))
+                        for op in e.ops):
+                    continue
+                ops = [e] if not isinstance(e, ast.Compare) else \
+                    [e.left] + e.comparators
+                for o in ops:
+                    if isinstance(o, ast.Attribute) and isinstance(
+                            o.value, ast.Name) and o.value.id == 'self' \
+                            and o.attr in arr:
+                        out.append((m, n, o.attr))
+    return out, n_tests
+
+
+def g7(ctx, prop, rel, rule):
+    n = 0
+    for ci in ctx.repo.all_classes():
+        if ci.mod.name.startswith('dassh.py4c'):
+            continue
+        hits, k = array_truth_tests(ctx.repo, ci)
+        n += k
+        for m, node, attr in hits:
+            msg = ('`self.%s` is an array by every definition in %s (one '
+                   'entry per bypass gap / duct / node), but `%s` uses it as '
+                   'a truth value: with more than one entry the test raises '
+                   'ValueError -- the configurations with several entries '
+                   'cannot be computed at all'
+                   % (attr, ci.name, ' '.join(src(node.test).split())[:60]))
+            if m.full in rel:
+                ctx.violation(rule, m, node, msg,
+                              key='%s | array %s as truth value'
+                              % (m.full, attr))
+    pm = Module('dassh._positive', '<positive>', 'dassh/_positive.py',
+                TRUTH_POSITIVE)
+
+    class _R:
+        @staticmethod
+        def mro(ci):
+            return [ci]
+    h, _ = array_truth_tests(_R, pm.classes['R'])
+    if [(m.name, a) for m, _, a in h] != [('step', 'flow')]:
+        raise AnalysisError('%s positive example: %s'
+                            % (rule, [(m.name, a) for m, _, a in h]))
+    ctx.ok(rule, 'dassh', None, '%d truth tests of classes with array-valued '
+           'attributes examined; synthetic positive/negative example decided'
+           % n)
